@@ -62,6 +62,20 @@ INLINE_CASES: list[tuple[str, dict[str, str], str, str, list[str]]] = [
                                "/proj/second/only.exps": "macro o() { only_second(); }\n"},
      'import "common.exps";\nimport "only.exps";\ndef 0 { ~c(); ~o(); end; }',
      "def 0 { from_first(); only_second(); end; }", ["first", "second"]),
+    ("same-label-name-in-two-macros", {},
+     "macro first($v) { if ($v == 1) { f1($v); jump @skip; } f2(); §skip; f3(); }\nmacro second($v) { if ($v == 2) { s1($v); jump @skip; } s2(); §skip; s3(); }\n"
+     "def 0 { ~first($A); ~second($B); ~first($C); end; }",
+     "def 0 { if ($A == 1) { f1($A); jump @k1; } f2(); §k1; f3(); if ($B == 2) { s1($B); jump @k2; } s2(); §k2; s3(); if ($C == 1) { f1($C); jump @k3; } f2(); §k3; f3(); end; }", []),
+    ("macro-ending-in-return-inside-if-chain", {},
+     "macro early($v) { e1($v); if ($v == 1) { return; } e2(); return; }\n"
+     "def 0 { if ($A == 1) { a1(); ~early($A); } elseif ($B == 2) { b1(); } else { c1(); } d1(); end; }",
+     "def 0 { if ($A == 1) { a1(); e1($A); if ($A == 1) { jump @x; } e2(); jump @x; §x; } elseif ($B == 2) { b1(); } else { c1(); } d1(); end; }", []),
+    ("macro-ending-in-return-last-in-routine", {},
+     "macro tail($v) { t1($v); return; }\ndef 0 { a(); ~tail(1); b(); ~tail(2); }",
+     "def 0 { a(); t1(1); b(); t1(2); }", []),
+    ("absolute-import", {"/abs/place/greet.exps": "macro greet() { hello(); }\n", "/proj/lib/rel.exps": 'import "/abs/place/greet.exps";\nmacro r() { ~greet(); rr(); }\n'},
+     'import "/abs/place/greet.exps";\nimport "./lib/rel.exps";\ndef 0 { ~greet(); ~r(); end; }',
+     "def 0 { hello(); hello(); rr(); end; }", []),
     ("imported-macros-call-each-other", {"/proj/lib.exps": "macro a2($v) { ~b2($v); la($v); }\nmacro b2($v) { lb($v); }\n"},
      'import "./lib.exps";\ndef 0 { ~a2(1); end; }\ncoro Other { ~b2(2); }',
      "def 0 { lb(1); la(1); end; }\ncoro Other { lb(2); }", []),
@@ -79,6 +93,12 @@ REJECT_CASES: list[tuple[str, dict[str, str], str, str]] = [
     ("cyclic-import", {"/proj/a.exps": 'import "./b.exps";\nmacro ma() { a(); }', "/proj/b.exps": 'import "./a.exps";\nmacro mb() { b(); }'},
      'import "./a.exps";\ndef 0 { ~ma(); }', "imports that form a cycle"),
     ("self-import", {}, 'import "./main.exps";\ndef 0 { a(); }', "a file that imports itself"),
+    ("recursion-through-redefined-imported-name", {"/proj/lib.exps": "macro foo() { lib_foo(); }\n"}, 'import "./lib.exps";\nmacro foo() { a(); ~foo(); }\ndef 0 { ~foo(); }',
+     "a macro that calls itself, under a name that an imported file also defines"),
+    ("indirect-recursion-through-imported-name", {"/proj/lib.exps": "macro foo() { lib_foo(); }\nmacro bar() { lib_bar(); }\n"},
+     'import "./lib.exps";\nmacro foo() { ~bar(); }\nmacro bar() { ~foo(); }\ndef 0 { ~foo(); }', "macros that call each other in a cycle, under imported names"),
+    ("missing-lookup-import-after-a-found-one", {"/proj/first/common.exps": "macro c() { a(); }"}, 'import "common.exps";\nimport "nope.exps";\ndef 0 { ~c(); }',
+     "a lookup import that exists nowhere, listed after one that was found"),
     ("routines-in-imported-file", {"/proj/lib.exps": "macro m() { a(); }\ndef 0 { b(); }"}, 'import "./lib.exps";\ndef 0 { ~m(); }', "routines in an imported file"),
     ("relative-path-in-lookup-import", {"/proj/first/x.exps": "macro x() { a(); }"}, 'import "../first/x.exps";\ndef 0 { ~x(); }', "relative segments in a lookup import"),
 ]
@@ -133,6 +153,17 @@ def inline_rule(chk: Check, ctx: Any, rule: str) -> None:
                                              f"main file {main!r} compiles to {ops}")
         else:
             chk.hold(rule, key, anchor, "behaves like the hand-inlined program")
+    n += reject_projects(chk, ctx, rule, P)
+    chk.floor(rule, "multi-file macro projects compiled abstractly", n, 20)
+
+
+def reject_projects(chk: Check, ctx: Any, rule: str, P: Any = None) -> int:
+    """Meaningless macro/import projects are rejected with a documented error class (shared by C05 and C10)."""
+    repo = ctx.repo
+    if P is None:
+        P = _pipe(ctx)
+    anchor = repo.func("explorerscript.ssb_converting.ssb_compiler:ExplorerScriptSsbCompiler.compile")
+    n = 0
     for name, files, main, what in REJECT_CASES:
         key = f"reject:{name}"
         n += 1
@@ -144,7 +175,7 @@ def inline_rule(chk: Check, ctx: Any, rule: str) -> None:
                        f"project `{name}` ({what}) fails with {e.cls_name} ({e.msg}) instead of SsbCompilerError, ValueError or ParseError", f"rejected: {e.cls_name}")
         except (Unsupported, AnalysisError) as e:
             chk.unknown(rule, key, anchor, f"project `{name}`: abstract interpretation left the modelled subset: {e}")
-    chk.floor(rule, "multi-file macro projects compiled abstractly", n, 20)
+    return n
 
 
 # ------------------------------------------------------------------------------------------------ C08: entries of expanded ops
@@ -161,14 +192,17 @@ MAP_PROJECT = {
                             "macro unused() { never(); }\nmacro sibling() { sb(); }\n"
                             "macro leaf($w) {\n    lf1($w);\n    if ($w == 2) { return; }\n    lf2();\n}\n",
     "/proj/other/unused.exps": "macro not_called() { nope(); }\n",
+    "/proj/wrap/wrap.exps": 'import "./leaf/leaf.exps";\nmacro wrapped() {\n    ~leafm();\n    own_op();\n}\n',
+    "/proj/wrap/leaf/leaf.exps": "macro leafm() {\n    lm1();\n    if ($V == 3) { lm2(); }\n    return;\n}\n",
 }
-MAP_MAIN = ('import "./lib/m.exps";\nimport "./other/unused.exps";\n'
+MAP_MAIN = ('import "./lib/m.exps";\nimport "./other/unused.exps";\nimport "./wrap/wrap.exps";\n'
             "macro local($z) { lc($z); }\n"
             "def 0 {\n"
             "    a();\n"
             "    ~outer(1, CONST);\n"
             "    ~local(3);   ~outer(2, 4);\n"
             "    ~sibling();\n"
+            "    ~wrapped(); after_wrapped();\n"
             "    b(Position<'direct', 3, 4>);\n"
             "    end;\n"
             "}\n")
@@ -188,6 +222,7 @@ def macro_map_rule(chk: Check, ctx: Any, rule: str) -> None:
     where_op: dict[str, tuple[str | None, str | None, int, int]] = {}  # op name -> (file relative to main or None, macro or None, line0, col)
     calls: dict[tuple[str | None, str], list[tuple[int, int]]] = {}  # (file of the call, called macro) -> positions
     first_op: dict[str, str] = {}  # macro -> name of its first operation
+    call_owner: dict[tuple[Any, int, int], str | None] = {}  # call site -> macro that contains it (None: a routine)
     marks_src: list[tuple[str, Any]] = []
     for path, text in files.items():
         tree = g.parse_text("start", text)
@@ -212,6 +247,7 @@ def macro_map_rule(chk: Check, ctx: Any, rule: str) -> None:
             if n.rule == "macro_call":
                 callee = n.tok("MACRO_CALL").text[1:]
                 calls.setdefault((rel, callee), []).append(pos(n.first_token().pos))
+                call_owner[(rel, *pos(n.first_token().pos))] = macro
                 if macro is not None and macro not in first_op:
                     first_op[macro] = "~" + callee
             for ch in n.children:
@@ -271,24 +307,47 @@ def macro_map_rule(chk: Check, ctx: Any, rule: str) -> None:
                                         f"{ {k[0]: v for k, v in calls.items() if k[1] == macro} } (file, line, column)")
         elif ci is not None:
             problems["call"].append(f"op {nm} is not the first op of an expansion of {macro} but carries a call position {ci!r}")
-        # return address: after every op of the expansion, not after the first op that follows it
-        ra = a.get("return_addr")
-        j = idx
-        while j + 1 < len(ops):
-            nxt = ops[j + 1]
-            n2 = nxt.attrs["op_code"].attrs["name"]
-            e2 = macros.get(nxt.attrs["offset"])
-            same = e2 is not None and e2.attrs.get("return_addr") == ra
-            inner = e2 is not None and isinstance(e2.attrs.get("return_addr"), int) and isinstance(ra, int) and e2.attrs["return_addr"] < ra and n2 not in () \
-                and where_op.get(n2, (None, None))[1] != macro
-            if same or inner:
-                j += 1
-            else:
-                break
-        last_off = ops[j].attrs["offset"]
-        next_off = ops[j + 1].attrs["offset"] if j + 1 < len(ops) else None
-        if not isinstance(ra, int) or ra <= last_off or (next_off is not None and ra > next_off):
-            problems["return"].append(f"op {off} {nm} of macro {macro}: return address {ra}; the expansion's last op is {last_off}, the first op after it is {next_off}")
+    # expansion instances, rebuilt from the call positions: an op that carries a call position opens an instance of its macro inside the
+    # instance of the macro that contains the call; other ops belong to the innermost open instance of their macro
+    stack: list[dict[str, Any]] = []
+    instances: list[dict[str, Any]] = []
+    for idx, op in enumerate(ops):
+        e = macros.get(op.attrs["offset"])
+        if e is None:
+            stack = []
+            continue
+        a = e.attrs
+        mname = a.get("macro_name")
+        ci = a.get("called_in")
+        if isinstance(ci, tuple) and len(ci) == 3:
+            owner = call_owner.get((ci[0], ci[1], ci[2]), "?")
+            if owner is not None and not any(x["macro"] == owner for x in stack):
+                # the calling macro starts with this nested call: its own expansion opens at the same op (one op carries one call position)
+                stack = []
+                outer_inst = {"macro": owner, "ra": None, "first": idx, "last": idx, "ras": set()}
+                instances.append(outer_inst)
+                stack.append(outer_inst)
+            while stack and stack[-1]["macro"] != owner:
+                stack.pop()
+            inst = {"macro": mname, "ra": a.get("return_addr"), "first": idx, "last": idx, "ras": {a.get("return_addr")}}
+            instances.append(inst)
+            stack.append(inst)
+        else:
+            while stack and stack[-1]["macro"] != mname:
+                stack.pop()
+            if not stack:
+                problems["call"].append(f"op {op.attrs['offset']} of macro {mname} follows no op that opens an expansion of {mname}")
+                continue
+            stack[-1]["ras"].add(a.get("return_addr"))
+        for inst in stack:
+            inst["last"] = idx
+    for inst in instances:
+        last_off = ops[inst["last"]].attrs["offset"]
+        next_off = ops[inst["last"] + 1].attrs["offset"] if inst["last"] + 1 < len(ops) else None
+        for ra in inst["ras"]:
+            if not isinstance(ra, int) or ra <= last_off or (next_off is not None and ra > next_off):
+                problems["return"].append(f"expansion of {inst['macro']} (ops {ops[inst['first']].attrs['offset']}..{last_off}): return address {ra}; the first op after the "
+                                          f"expansion is {next_off}")
     chk.floor(rule, "ops of macro expansions in the sample project", n_macro_ops, 12)
     text = {"entry": "every emitted op has an entry (direct ops a direct one, ops of expansions a macro entry)",
             "file": "macro entries name the defining file relative to the compiled file and the macro",
@@ -302,6 +361,16 @@ def macro_map_rule(chk: Check, ctx: Any, rule: str) -> None:
     contributing = {where_op[op.attrs["op_code"].attrs["name"]][0] for op in ops if op.attrs["op_code"].attrs["name"] in where_op} - {None}
     chk.decide(rule, "macro-map:files", named == contributing, anchor,
                f"macro entries name the files {sorted(named)}; the imported files that contributed ops are {sorted(contributing)}", "files named = files that contributed ops")
+    # IncludedUsageMap: the files a script depends on
+    try:
+        ium_cls = repo.find_class("IncludedUsageMap")
+        ium = I.new(ium_cls, sm, "/proj/main.exps")
+        got_files = set(ium.attrs.get("included_files", set()))
+        want_files = {posixpath.normpath(posixpath.join("/proj", f)) for f in contributing}
+        chk.decide(rule, "macro-map:included-usage-map", got_files == want_files, repo.func("explorerscript.included_usage_map:IncludedUsageMap.__init__"),
+                   f"IncludedUsageMap lists {sorted(got_files)}; the imported files that contributed ops are {sorted(want_files)}", "included files = files that contributed ops")
+    except (PyExc, Unsupported, AnalysisError) as e:
+        chk.unknown(rule, "macro-map:included-usage-map", anchor, f"IncludedUsageMap not evaluated: {e}")
     # position marks = marks in emitted parameters
     emitted = []
     for op in ops:
